@@ -196,8 +196,11 @@ PsrApiVerdict(e, pre, post) ==
 Verdict(e) ==
   LET pre  == Overlay(BaseState, e.pre)
       post == Overlay(pre, e.d)
-  IN IF ~WordsOK(pre) THEN [id |-> e.id, v |-> <<"typeok.pre">>, path |-> "typeok"]
-     ELSE IF ~WordsOK(post) THEN [id |-> e.id, v |-> <<"range">>, path |-> "typeok"]
+      \* a step that starts from a state an earlier step of the same history left ill-typed (a register outside 0..2^32-1) cannot
+      \* be judged against the specification; a host error it dies with is still a host error
+      host == Has(e, "out") /\ e.out \notin (AllowedOutcomes \cup {"notimpl", "completed"})
+  IN IF ~WordsOK(pre) THEN [id |-> e.id, v |-> <<"typeok.pre">> \o (IF host THEN <<"hosterror">> ELSE <<>>), path |-> "typeok"]
+     ELSE IF ~WordsOK(post) THEN [id |-> e.id, v |-> <<"range">> \o (IF host THEN <<"hosterror">> ELSE <<>>), path |-> "typeok"]
      ELSE IF e.act.n = "SameDelta" THEN
           \* C05 positive path: the same instruction under a passing condition and under AL, from the
           \* same pre-state, must have the same effect (e.d / e.d2 are the two recorded deltas)
